@@ -1040,3 +1040,120 @@ Proof.
   - apply LIT. revert H. repeat break_match; try discriminate.
     intro H. inversion H; subst. eapply disconnect_count_final; eauto.
 Qed.
+
+(* ================================================================== *)
+(* Events                                                               *)
+
+Theorem event_step_proof : forall U s l s' outs h sub pub t n,
+  step U s l = Ok s' outs -> In (OEvent h sub pub t n) outs ->
+  exists d a, l = RouterMsg (REvent sub pub d a) /\ outs = [OEvent h sub pub t n] /\
+    alookup (s_ehandlers s) sub = Some h /\ s' = s.
+Proof.
+  intros U s l s' outs h sub pub t n H Hin.
+  destruct l; simpl in H.
+  - exfalso. lit_outs H Hin.
+  - exfalso. unfold step_api_start in H. lit_outs H Hin.
+  - unfold step_router in H. destruct (negb (s_connected s)); [discriminate|].
+    destruct m; simpl in H;
+      try (exfalso; unfold step_reply in H; lit_outs H Hin).
+    + unfold step_event in H.
+      destruct (alookup (s_ehandlers s) sub0) as [h0|] eqn:Eh; [|inversion H; subst; destruct Hin].
+      destruct (ppt_scheme details).
+      * destruct (scheme_valid s0); [|inversion H; subst; destruct Hin].
+        destruct (unpack U s0 details args); inversion H; subst; try destruct Hin as [X|[]]; try destruct Hin.
+        inversion X; subst. eauto 10.
+      * inversion H; subst. destruct Hin as [X|[]]. inversion X; subst. eauto 10.
+    + exfalso. unfold step_invocation in H. lit_outs H Hin.
+    + exfalso. unfold step_interrupt, cancel_inv in H. lit_outs H Hin.
+    + exfalso. destruct (disconnect s) eqn:E. inversion H; subst. disc_outs E Hin.
+    + exfalso. destruct (disconnect s) eqn:E. inversion H; subst. disc_outs E Hin.
+  - exfalso. unfold step_timer in H. lit_outs H Hin.
+  - exfalso. unfold step_ctx in H. lit_outs H Hin.
+  - exfalso. unfold step_ctx in H. lit_outs H Hin.
+  - exfalso. unfold step_api_finish in H.
+    destruct (fin_of (s_finishing s) o); [|discriminate].
+    destruct (f_op f); destruct (f_msg f); try discriminate;
+      revert H; repeat break_match; intro H; inversion H; subst; simpl in Hin;
+      try (intuition discriminate; fail);
+      (destruct Hin as [X|[X|X]]; try discriminate;
+       match goal with E : disconnect _ = _ |- _ => disc_outs E X end).
+  - exfalso. unfold step_inv_start in H. lit_outs H Hin.
+  - exfalso. unfold step_inv_exit in H. lit_outs H Hin.
+  - exfalso. unfold step_handler_return in H. lit_outs H Hin.
+  - exfalso. unfold step_send_prog in H. lit_outs H Hin.
+  - exfalso. unfold step_inv_timeout, cancel_inv in H. lit_outs H Hin.
+  - exfalso. unfold step_chunk in H. lit_outs H Hin.
+  - exfalso. unfold step_chunk in H. lit_outs H Hin.
+  - exfalso. unfold step_close_start, finish_close in H. lit_outs H Hin.
+  - exfalso. unfold step_close_timer in H. revert H. repeat break_match; try discriminate.
+    intro H. inversion H; subst. match goal with E : disconnect _ = _ |- _ => disc_outs E Hin end.
+  - exfalso. revert H. repeat break_match; try discriminate.
+    intro H. inversion H; subst. match goal with E : disconnect _ = _ |- _ => disc_outs E Hin end.
+Qed.
+
+(* the (subscription, publication) of the EVENT messages the run goroutine
+   took, and of the event-handler calls, in order *)
+Definition ev_label (e : event) : list (id * id) :=
+  match e with ELab (RouterMsg (REvent sub pub _ _)) => [(sub, pub)] | _ => [] end.
+Definition ev_call (e : event) : list (id * id) :=
+  match e with EOut (OEvent _ sub pub _ _) => [(sub, pub)] | _ => [] end.
+
+Inductive sublist {A} : list A -> list A -> Prop :=
+| sub_nil : forall l, sublist [] l
+| sub_skip : forall a l x, sublist a l -> sublist a (x :: l)
+| sub_take : forall a l x, sublist a l -> sublist (x :: a) (x :: l).
+
+Lemma sublist_app : forall {A} (a b c d : list A), sublist a b -> sublist c d -> sublist (a ++ c) (b ++ d).
+Proof.
+  intros A a b c d H. revert c d. induction H; intros c d Hc; simpl.
+  - induction l; simpl; [exact Hc|apply sub_skip; assumption].
+  - apply sub_skip. apply IHsublist. exact Hc.
+  - apply sub_take. apply IHsublist. exact Hc.
+Qed.
+
+Lemma sublist_refl : forall {A} (l : list A), sublist l l.
+Proof. induction l; [apply sub_nil|apply sub_take; auto]. Qed.
+
+Lemma flat_map_out_no_event : forall outs,
+  (forall h sub pub t n, ~ In (OEvent h sub pub t n) outs) -> flat_map ev_call (map EOut outs) = [].
+Proof.
+  induction outs as [|x r IH]; simpl; intro H; auto.
+  rewrite IH; [|intros; intro X; eapply H; right; eauto].
+  destruct x; simpl; auto. exfalso. eapply H. left. reflexivity.
+Qed.
+
+Lemma flat_map_out_no_label : forall outs, flat_map ev_label (map EOut outs) = [].
+Proof. induction outs as [|x r IH]; simpl; auto. Qed.
+
+Lemma classic_event : forall outs,
+  (exists h sub pub t n, In (OEvent h sub pub t n) outs) \/
+  (forall h sub pub t n, ~ In (OEvent h sub pub t n) outs).
+Proof.
+  induction outs as [|x r [IH|IH]].
+  - right. intros; intro X; destruct X.
+  - left. destruct IH as (h & sub & pub & t & n & H). exists h, sub, pub, t, n. right. exact H.
+  - destruct x; try (right; intros; intro X; destruct X as [X|X]; [discriminate|eapply IH; eauto]).
+    left. eexists _, _, _, _, _. left. reflexivity.
+Qed.
+
+(* Event handlers are invoked in the order in which the EVENT messages were
+   taken from the router, each while its own message is being processed
+   (the model's run goroutine is one sequential process; that the handler call
+   is synchronous in run is obligation H6 on the generated skeleton). *)
+Theorem events_serial_in_order_proof : forall U c tr,
+  sublist (flat_map ev_call (x_events (exec U c tr))) (flat_map ev_label (x_events (exec U c tr))).
+Proof.
+  intros U c tr. induction tr as [|l tr IH] using rev_ind; [simpl; constructor|].
+  rewrite exec_snoc. unfold exec_step.
+  destruct (x_panic (exec U c tr)); [exact IH|].
+  destruct (step U (x_state (exec U c tr)) l) as [s' outs| |site] eqn:E; simpl; [|exact IH|].
+  - rewrite !flat_map_app. apply sublist_app; [exact IH|]. simpl.
+    rewrite flat_map_out_no_label, app_nil_r.
+    destruct (classic_event outs) as [(h & sub & pub & t & n & Hin)|Hno].
+    + destruct (event_step_proof _ _ _ _ _ _ _ _ _ _ E Hin) as (d & a & -> & -> & _ & _).
+      simpl. apply sub_take. apply sub_nil.
+    + rewrite flat_map_out_no_event by exact Hno. simpl. apply sub_nil.
+  - rewrite !flat_map_app. simpl. rewrite app_nil_r.
+    replace (flat_map ev_call (x_events (exec U c tr))) with (flat_map ev_call (x_events (exec U c tr)) ++ []) by apply app_nil_r.
+    apply sublist_app; [exact IH|]. apply sub_nil.
+Qed.
